@@ -182,7 +182,7 @@ fn batcher_order(sc: &Scenario, rr: &RunResult) -> Vec<Violation> {
     for (si, st) in sc.steps.iter().enumerate() {
         // boundaries on which every data element goes to exactly one link of the producer
         let positions: &[&str] = match st {
-            Step::Un(_, UnOp::Shuffle) | Step::Un(_, UnOp::Repl(_)) | Step::Un(_, UnOp::Win(..)) | Step::Un(_, UnOp::Extra(ExtraOp::KeyedChain(..))) => &["pre"],
+            Step::Un(_, UnOp::Shuffle) | Step::Un(_, UnOp::Repl(_)) | Step::Un(_, UnOp::RepartBy(..)) | Step::Un(_, UnOp::Win(..)) | Step::Un(_, UnOp::Extra(ExtraOp::KeyedChain(..))) => &["pre"],
             Step::Un(_, UnOp::Gb(f, _)) if matches!(f, GbForm::Fold | GbForm::Reduce | GbForm::RichCounter | GbForm::KeyedMap) => &["pre"],
             Step::Bin(_, _, BinOp::Merge) | Step::Bin(_, _, BinOp::Zip) => &["preL", "preR"],
             _ => continue,
@@ -1096,8 +1096,26 @@ pub fn c03(sc: &Scenario, rr: &RunResult) -> Vec<Violation> {
         let path = vec![si];
         let find = |pos: &str| rr.meta.iter().find(|m| m.path == path && m.pos == pos);
         match st {
-            Step::Un(_, UnOp::Shuffle) | Step::Un(_, UnOp::Repl(_)) => {
+            Step::Un(_, UnOp::Shuffle) | Step::Un(_, UnOp::Repl(_)) | Step::Un(_, UnOp::RepartBy(..)) => {
                 let (Some(p), Some(q)) = (find("pre"), find("start")) else { continue };
+                if let Step::Un(_, UnOp::RepartBy(_, m)) = st {
+                    // the replica depends only on the value of the user's partition function
+                    let m = (*m).max(1);
+                    let mut part_at: BTreeMap<u16, BTreeSet<CoordT>> = BTreeMap::new();
+                    for ((pid, c), hist) in &rr.rec.probes {
+                        if *pid == q.id {
+                            for r in hist.iter().filter(|r| r.kind <= K_TS) {
+                                part_at.entry(r.key % m).or_default().insert(*c);
+                            }
+                        }
+                    }
+                    for (k, cs) in &part_at {
+                        if cs.len() > 1 {
+                            out.push(viol("C03", "groupby/key-split", format!("step {} ({}): elements with partition value {} were delivered to {} replicas {:?}", si, crate::plan::step_brief(st), k, cs.len(), cs)));
+                            return out;
+                        }
+                    }
+                }
                 let a = where_seen(&rr.rec, p.id);
                 let b = where_seen(&rr.rec, q.id);
                 let prod = probe_coords(&rr.rec, p.id);
